@@ -1,6 +1,7 @@
 """C18 — all views of measurement results tell the same story."""
 from __future__ import annotations
 
+import collections
 import functools
 import io
 import json
@@ -16,6 +17,7 @@ import cirq
 import cirq_google as cg
 from vf.core import Reject, SubCheck, Violation
 from vf.gen import c18_samplers as HS
+from vf.gen import c18_sweeps as SW
 from vf.ref import records as RR
 
 RULE = (
@@ -532,6 +534,218 @@ def oracle_records(r):
     }
 
 
+# ======================================================================================= long results
+
+# (Hypothesis favours the first entries of a sampled_from list, so the interesting sizes come first)
+REPS_TABLE = [50001, 65537, 100003, 50000, 65536, 100000, 49999, 65535, 99999, 100001, 131073, 32768, 4097, 4096, 1000, 65, 64, 63,
+              2, 1, 0]
+
+
+@st.composite
+def _long_case(draw):
+    via = draw(st.sampled_from(["records", "records", "measurements", "custom", "engine"]))
+    reps = draw(st.sampled_from(REPS_TABLE))
+    nkeys = draw(st.integers(1, 2))
+    names = list(draw(st.permutations(["a", "b", "q(3)", "m_1"])))[:nkeys]
+    multi = via != "measurements" and draw(st.integers(0, 5)) == 0
+    keys = []
+    for nm in names:
+        w = draw(st.integers(1, 3))
+        qudit = draw(st.integers(0, 2)) == 0
+        radix = draw(st.lists(st.integers(2, 4), min_size=w, max_size=w)) if qudit else [2] * w
+        binary = all(x == 2 for x in radix)
+        keys.append({"name": nm, "radix": radix, "inst": draw(st.integers(1, 2)) if multi else 1,
+                     "dtype": draw(st.sampled_from(["bool", "uint8", "int8", "int64"] if binary else ["uint8", "int8", "int64"])),
+                     "mult": draw(st.integers(1, 999983)), "add": draw(st.integers(0, 10 ** 6))})
+    return {"via": via, "reps": reps, "keys": keys, "splits": [draw(st.sampled_from(REPS_TABLE)), draw(st.sampled_from(REPS_TABLE))],
+            "mm": list(draw(st.permutations(list(range(nkeys))))), "base_extra": draw(st.sampled_from([0, 0, 1, 5])),
+            "qid_keys": draw(st.booleans()), "sampler": draw(st.sampled_from(["none", "none", "zeros", "sim"]))}
+
+
+@_bucketed
+def oracle_long(r):
+    """Aggregate views of results whose repetition count crosses whatever chunking the implementation uses."""
+    _, specs, via = _normalise(dict(r, reps=0))
+    reps = max(0, min(140000, int(r["reps"])))
+    if not specs:
+        raise Reject("no keys")
+    recs, vals, full = {}, {}, {}
+    for s in specs:
+        nm = s["name"]
+        recs[nm], vals[nm] = RR.long_rows(s, reps)
+        full[nm] = _arr(recs[nm], (reps, s["inst"], len(s["radix"])), s["dtype"])  # numpy is only a container here
+    names = [s["name"] for s in specs]
+    any_multi = any(s["inst"] > 1 for s in specs)
+
+    def build(lo, hi):
+        arrays = {k: v[lo:hi].copy() for k, v in full.items()}
+        if via == "measurements":
+            return cirq.ResultDict(measurements={k: v[:, 0, :].copy() for k, v in arrays.items()})
+        if via == "custom":
+            return _CustomResult(cirq.ParamResolver({}), arrays)
+        if via == "engine":
+            return cg.EngineResult(job_id="job-7", records=arrays)
+        return cirq.ResultDict(records=arrays)
+
+    def same_records(what, obj, n):
+        got = obj.records
+        if sorted(got.keys()) != sorted(names):
+            raise Violation(f"{what}: record keys {sorted(got.keys())} != {sorted(names)}")
+        for s in specs:
+            g = np.asarray(got[s["name"]])
+            shape = (n, s["inst"], len(s["radix"]))
+            if tuple(g.shape) != shape:
+                raise Violation(f"{what}.records[{s['name']!r}]: shape {tuple(g.shape)} != expected {shape}")
+            if not np.array_equal(g.astype(np.int64), full[s["name"]][:n].astype(np.int64)):
+                raise Violation(f"{what}.records[{s['name']!r}]: digits differ from the reference decoding")
+        if obj.repetitions != n:
+            raise Violation(f"{what}: repetitions = {obj.repetitions}, records hold {n}")
+
+    res = build(0, reps)
+    W = f"{type(res).__name__}({'measurements' if via == 'measurements' else 'records'}=...) with {reps} repetitions"
+    same_records(W, res, reps)
+    b_extra = int(r.get("base_extra", 0) or 0)
+    tup1 = lambda bits: tuple(int(b) for b in bits)  # noqa
+    tupn = lambda t: tuple(tuple(int(b) for b in bits) for bits in t)  # noqa
+    mm = []
+    for i in r.get("mm", []):
+        if specs[int(i) % len(specs)]["name"] not in mm:
+            mm.append(specs[int(i) % len(specs)]["name"])
+    by = {s["name"]: s for s in specs}
+    ref_cache = {}
+
+    def ref(n):
+        """Reference counters over rows [0, n), from the pure-Python decoding."""
+        if n not in ref_cache:
+            d = {}
+            for s in specs:
+                nm = s["name"]
+                b_int = max(s["radix"]) + b_extra
+                per_value = {}
+                for v, row in zip((x[0] for x in vals[nm][:n]), (x[0] for x in recs[nm][:n])):
+                    if v not in per_value:
+                        per_value[v] = [0, tuple(row)]
+                    per_value[v][0] += 1
+                d[nm] = {
+                    "mixed": collections.Counter({v: c for v, (c, _) in per_value.items()}),
+                    "uniform": collections.Counter(),
+                    "tuple": collections.Counter({row: c for _, (c, row) in per_value.items()}),
+                    "first": collections.Counter(),
+                }
+                for v, (c, row) in per_value.items():
+                    d[nm]["uniform"][RR.digits_to_int_uniform(row, b_int)] += c
+                    d[nm]["first"][row[0]] += c
+            ref_cache[n] = d
+        return ref_cache[n]
+
+    def aggregate_views(what, obj, n, full_set):
+        """Aggregate views of `obj` against the reference rows [0, n)."""
+        want_all = ref(n)
+        for s in specs:
+            nm = s["name"]
+            key = _qkey(r, nm)
+            w = want_all[nm]
+            b_int = max(s["radix"]) + b_extra
+            calls = [("histogram(key, fold_base=[per-digit])", dict(key=key, fold_base=list(s["radix"])), w["mixed"]),
+                     (f"histogram(key, fold_base={b_int})", dict(key=key, fold_base=b_int), w["uniform"])]
+            if s["binary"]:
+                calls.insert(0, ("histogram(key)", dict(key=key), w["mixed"]))
+            if full_set:
+                calls += [("histogram(key, fold_func=tuple)", dict(key=key, fold_func=tup1), w["tuple"]),
+                          ("histogram(key, fold_func=first)", dict(key=key, fold_func=FOLDS["first"]), w["first"])]
+            for label, kw, want in calls:
+                got = obj.histogram(**kw)
+                if sum(got.values()) != n:
+                    raise Violation(f"{what}.{label}: counts sum to {sum(got.values())}, the result holds {n} repetitions")
+                _check_counter(f"{what}.{label}", got, want)
+        if full_set:
+            want = RR.counter(tuple(tuple(recs[k][rep][0]) for k in mm) for rep in range(n))
+            _check_counter(f"{what}.multi_measurement_histogram(keys={mm}, fold_func=tuples)",
+                           obj.multi_measurement_histogram(keys=[_qkey(r, k) for k in mm], fold_func=tupn), want)
+        if all(by[k]["binary"] for k in mm) and (full_set or len(mm) == 1):
+            want = RR.counter(tuple(vals[k][rep][0] for k in mm) for rep in range(n))
+            _check_counter(f"{what}.multi_measurement_histogram(keys={mm})",
+                           obj.multi_measurement_histogram(keys=[_qkey(r, k) for k in mm]), want)
+        df = obj.data
+        if list(df.columns) != names or len(df) != n:
+            raise Violation(f"{what}.data: columns {list(df.columns)} x {len(df)} rows, expected {names} x {n}")
+        for s in specs:
+            if not s["binary"]:
+                continue
+            col = df[s["name"]].tolist()
+            want_col = [v[0] for v in vals[s["name"]][:n]]
+            if col != want_col or not all(_is_exact_int(x) for x in col[:50]):
+                k = next((i for i, (a, b) in enumerate(zip(col, want_col)) if a != b), None)
+                raise Violation(f"{what}.data[{s['name']!r}] differs from the big-endian integers of the records (first at row {k})")
+            vc = {int(k): int(v) for k, v in df[s["name"]].value_counts().items()}
+            if vc != dict(want_all[s["name"]]["mixed"]):
+                raise Violation(f"{what}.data[{s['name']!r}].value_counts() differs from the reference counts")
+
+    if not any_multi:
+        m = res.measurements
+        for s in specs:
+            if not np.array_equal(np.asarray(m[s["name"]]).astype(np.int64), full[s["name"]][:, 0, :].astype(np.int64)):
+                raise Violation(f"{W}.measurements[{s['name']!r}] differs from records[:, 0, :]")
+        aggregate_views(W, res, reps, True)
+
+    # ---- str
+    if reps >= 1 and via != "custom":
+        got_lines = [ln.replace(" ", "") for ln in str(res).split("\n")]
+        if got_lines != [ln.replace(" ", "") for ln in RR.expected_str(specs, recs)]:
+            raise Violation(f"str({W}) does not list the recorded digits per key/instance/qubit in repetition order")
+
+    # ---- concatenation at table points, then the aggregate views of the sum and of a prefix
+    cuts = sorted({max(0, min(reps, int(x))) for x in (list(r.get("splits", [])) + [0])[:2]})
+    bounds = [0] + cuts + [reps]
+    total = None
+    for lo, hi in zip(bounds, bounds[1:]):
+        part = build(lo, hi)
+        total = part if total is None else total + part
+    WS = f"sum of parts cut at {cuts} of {W}"
+    same_records(WS, total, reps)
+    if not any_multi:
+        aggregate_views(WS, total, reps, False)
+        half = bounds[1]
+        if 0 < half < reps:
+            aggregate_views(f"first part ({half} repetitions) of {W}", build(0, half), half, False)
+
+    # ---- JSON (packed) round trip
+    if via != "custom":
+        text = cirq.to_json(res)
+        back = cirq.read_json(json_text=text)
+        same_records(f"JSON round trip of {W}", back, reps)
+        if not (back == res):
+            raise Violation(f"JSON round trip of {W} is not == the original")
+        doc = json.loads(text)
+        for s in specs:
+            ent = doc["records"][s["name"]]
+            if ent["binary"] and ent["packed_digits"] != RR.pack_bits_hex(RR.flatten(recs[s["name"]])):
+                raise Violation(f"JSON of {W}: bit-packed digits are not the records in repetition/instance/qubit order")
+        if not any_multi:
+            aggregate_views(f"JSON round trip of {W}", back, reps, False)
+
+    # ---- a sampler run of the same length
+    smp = r.get("sampler", "none")
+    if smp in ("zeros", "sim") and reps >= 1:
+        qs = cirq.LineQubit.range(2)
+        circuit = cirq.Circuit(cirq.X(qs[0]), cirq.measure(*qs, key="m"))
+        out = (cirq.ZerosSampler() if smp == "zeros" else cirq.Simulator(seed=1)).run(circuit, repetitions=reps)
+        val = 0 if smp == "zeros" else 2
+        SWH = f"{smp} sampler run with {reps} repetitions"
+        if out.repetitions != reps or tuple(out.records["m"].shape) != (reps, 1, 2):
+            raise Violation(f"{SWH}: records shape {tuple(out.records['m'].shape)}")
+        for label, got in (("histogram(key)", out.histogram(key="m")), ("histogram(key, fold_base=2)", out.histogram(key="m", fold_base=2)),
+                           ("histogram(key, fold_func)", out.histogram(key="m", fold_func=lambda b: int(b[0]) * 2 + int(b[1]))),
+                           ("multi_measurement_histogram", collections.Counter({k[0]: v for k, v in out.multi_measurement_histogram(keys=["m"]).items()}))):
+            _check_counter(f"{SWH}.{label}", got, collections.Counter({val: reps}))
+        if {int(k): int(v) for k, v in out.data["m"].value_counts().items()} != {val: reps}:
+            raise Violation(f"{SWH}.data value counts differ from {{{val}: {reps}}}")
+    distinct = any(len(ref(reps)[s["name"]]["tuple"]) >= 2 for s in specs) if reps else False
+    return {"nontrivial": reps >= 2 and distinct, "reps_gt_50000": reps > 50000, "reps_gt_65536": reps > 65536, "reps_ge_100000": reps >= 100000,
+            "reps": reps, "qudit": any(not s["binary"] for s in specs), "multi_instance": any_multi, "via": via, "sampler": smp,
+            "sum_of_parts": len(bounds) > 2}
+
+
 # ======================================================================================= digits
 
 
@@ -763,23 +977,6 @@ SAMPLERS = ["sweep", "sweep", "sweep_async", "sweep_async", "zeros", "sim", "sim
 
 
 @st.composite
-def _sweepable(draw, syms, values):
-    """A JSON description of a Sweepable over exactly the symbols `syms`."""
-    pt = lambda: {s: draw(st.sampled_from(values)) for s in syms}  # noqa
-    if not syms:
-        return {"kind": draw(st.sampled_from(["none", "empty_dict", "unit", "resolver", "dictlist"])), "pts": [{}] * draw(st.integers(1, 2))}
-    kind = draw(st.sampled_from(["dict", "resolver", "dictlist", "listsweep", "zip", "product", "dict_of_lists", "sweeplist", "points_sum"]))
-    if kind in ("dict", "resolver"):
-        return {"kind": kind, "pts": [pt()]}
-    if kind in ("dictlist", "listsweep"):
-        return {"kind": kind, "pts": [pt() for _ in range(draw(st.integers(1, 3)))]}
-    cols = {s: draw(st.lists(st.sampled_from(values), min_size=1, max_size=3)) for s in syms}
-    if kind == "sweeplist":
-        return {"kind": kind, "cols": cols, "cols2": {s: draw(st.lists(st.sampled_from(values), min_size=1, max_size=2)) for s in syms}}
-    return {"kind": kind, "cols": cols}
-
-
-@st.composite
 def _program(draw, sim, syms, idx):
     nk = draw(st.integers(1, 3))
     names = list(draw(st.permutations(["m", "k", "out", "z9"])))[:nk]
@@ -820,11 +1017,11 @@ def _program(draw, sim, syms, idx):
 def _sampler_case(draw):
     kind = draw(st.sampled_from(SAMPLERS))
     sim = kind in ("sim", "dm")
-    syms = draw(st.sampled_from([[], ["a"], ["a", "b"], ["b", "a"]]))
-    values = [0, 1] if sim else [0, 1, 1, 0.5, 2, -1]
+    syms = draw(st.sampled_from([[], ["a"], ["a", "b"], ["a", "b"], ["b", "a"], ["a", "b", "c"], ["c", "a", "b"]]))
+    values = [0, 1] if sim else [0, 1, 1, 0.5, 2, -1, 1.0, 3.25]
     nprog = draw(st.integers(1, 3))
     progs = [draw(_program(sim, syms, i)) for i in range(nprog)]
-    sweeps = [draw(_sweepable(syms, values)) for _ in range(nprog)]
+    sweeps = [draw(SW.sweepables(syms, values, allow_subset=not sim)) for _ in range(nprog)]
     if draw(st.integers(0, 3)) <= (1 if kind == "processor" else 0):
         sweeps = [sweeps[0]] * nprog  # lets ProcessorSampler batch
     reps_kind = draw(st.sampled_from(["int", "list", "list"]))
@@ -838,65 +1035,18 @@ def _sampler_case(draw):
     }
 
 
-def _expand(sw, syms):
-    """Independent expansion of a sweepable description -> list of param dicts, in documented order."""
-    kind = sw["kind"]
-    if kind in ("none", "empty_dict", "unit"):
-        return [{}]
-    if kind in ("dict", "resolver", "dictlist", "listsweep"):
-        return [{s: p.get(s, 0) for s in syms} for p in sw["pts"]] if syms else [{} for _ in sw["pts"]] if kind == "dictlist" else [{}]
-    cols = {s: list(sw["cols"].get(s) or [0]) for s in syms}
-    if kind == "zip":
-        n = min(len(cols[s]) for s in syms)
-        return [{s: cols[s][i] for s in syms} for i in range(n)]
-    if kind in ("product", "dict_of_lists"):
-        out = [{}]
-        for s in syms:  # first factor is the outermost (slowest) loop
-            out = [dict(o, **{s: v}) for o in out for v in cols[s]]
-        return out
-    if kind == "points_sum":  # concatenation of two zips
-        n = min(len(cols[s]) for s in syms)
-        a = [{s: cols[s][i] for s in syms} for i in range(n)]
-        return a + a[:1]
-    if kind == "sweeplist":  # list of two sweeps: first a zip, then another zip
-        n = min(len(cols[s]) for s in syms)
-        c2 = {s: list(sw["cols2"].get(s) or [0]) for s in syms}
-        n2 = min(len(c2[s]) for s in syms)
-        return [{s: cols[s][i] for s in syms} for i in range(n)] + [{s: c2[s][i] for s in syms} for i in range(n2)]
-    raise Reject("unknown sweepable kind")
-
-
-def _make_sweepable(sw, syms):
-    kind = sw["kind"]
-    pts = sw.get("pts") or [{}]
-    if kind == "none":
-        return None
-    if kind == "empty_dict":
-        return {}
-    if kind == "unit":
-        return cirq.UnitSweep
-    if kind == "dict":
-        return {s: pts[0].get(s, 0) for s in syms}
-    if kind == "resolver":
-        return cirq.ParamResolver({s: pts[0].get(s, 0) for s in syms})
-    if kind == "dictlist":
-        return [{s: p.get(s, 0) for s in syms} for p in pts]
-    if kind == "listsweep":
-        return cirq.ListSweep([cirq.ParamResolver({s: p.get(s, 0) for s in syms}) for p in pts])
-    cols = {s: list(sw["cols"].get(s) or [0]) for s in syms}
-    if kind == "zip":
-        return cirq.Zip(*[cirq.Points(s, cols[s]) for s in syms])
-    if kind == "product":
-        return cirq.Product(*[cirq.Points(s, cols[s]) for s in syms])
-    if kind == "dict_of_lists":
-        return {s: cols[s] for s in syms}
-    if kind == "points_sum":
-        z = cirq.Zip(*[cirq.Points(s, cols[s]) for s in syms])
-        return cirq.Concat(z, cirq.Zip(*[cirq.Points(s, cols[s][:1]) for s in syms]))
-    if kind == "sweeplist":
-        c2 = {s: list(sw["cols2"].get(s) or [0]) for s in syms}
-        return [cirq.Zip(*[cirq.Points(s, cols[s]) for s in syms]), cirq.Zip(*[cirq.Points(s, c2[s]) for s in syms])]
-    raise Reject("unknown sweepable kind")
+def _orders(node):
+    """Key orders of the elements of a sweepable tree (as written by the user)."""
+    k = node["k"]
+    if k == "list":
+        return [o for s in node["subs"] for o in _orders(s)]
+    if k in ("dict", "res", "dol"):
+        return [[it[0] for it in node.get("items") or []]]
+    if k == "ls":
+        return [[it[0] for it in p] for p in node["pts"]]
+    if k in ("none", "unit", "empty"):
+        return [[]]
+    return [SW.keys_of(node)]
 
 
 def _norm_prog(p):
@@ -938,17 +1088,16 @@ def _df_rows(df):
 def oracle_samplers(r):
     kind = r["kind"]
     sim = kind in ("sim", "dm")
-    syms = [s for s in r.get("syms", []) if s in ("a", "b")]
+    syms = [s for s in r.get("syms", []) if s in ("a", "b", "c")]
     syms = list(dict.fromkeys(syms))
     progs = [_norm_prog(p) for p in r["progs"]]
     if not progs:
         raise Reject("no programs")
     n = len(progs)
-    sweeps = (list(r["sweeps"]) + [r["sweeps"][-1]] * n)[:n] if r.get("sweeps") else [{"kind": "none", "pts": [{}]}] * n
-    if not syms:
-        sweeps = [sw if sw["kind"] in ("none", "empty_dict", "unit", "resolver", "dictlist") else {"kind": "none", "pts": [{}]} for sw in sweeps]
-    else:
-        sweeps = [sw if sw["kind"] not in ("none", "empty_dict", "unit") else {"kind": "dict", "pts": [{}]} for sw in sweeps]
+    sweeps = (list(r["sweeps"]) + [r["sweeps"][-1]] * n)[:n] if r.get("sweeps") else [{"k": "none"}] * n
+    sweeps = [SW.upgrade(sw, syms) for sw in sweeps]
+    for sw in sweeps:
+        SW.validate(sw)
     reps = ([max(0, min(5, int(x))) for x in r["reps"]] + [1] * n)[:n]
     if r.get("reps_kind") == "int":
         reps = [reps[0]] * n
@@ -964,12 +1113,14 @@ def oracle_samplers(r):
             if s[0] == "m":
                 cnt[int(s[1])] = cnt.get(int(s[1]), 0) + 1
         shapes.append([(keys[i]["name"], cnt[i], keys[i]["radix"]) for i in sorted(cnt, key=lambda i: next(j for j, s in enumerate(steps) if s[0] == "m" and int(s[1]) == i))])
-    expected_resolvers = [_expand(sw, syms) for sw in sweeps]
-    for ps in expected_resolvers:
+    expected_resolvers = [SW.expand(sw) for sw in sweeps]
+    units = [SW.sweep_units(sw) for sw in sweeps]
+    no_params = all(not p for ps in expected_resolvers for p in ps)
+    for i, ps in enumerate(expected_resolvers):
+        used = {s[3] for s in progs[i][1] if s[0] == "x" and isinstance(s[3], str)}
         for p in ps:
-            for v in p.values():
-                if sim and v not in (0, 1):
-                    raise Reject("simulator programs take 0/1 parameters")
+            if sim and (any(v not in (0, 1) for v in p.values()) or not used <= set(p)):
+                raise Reject("simulator programs take 0/1 parameters for every symbol they use")
 
     log = HS.Log({id(c): i for i, c in enumerate(circuits)})
     sampler, inner = HS.make_sampler(kind, log, int(r.get("jobs_per_batch", 1)))
@@ -1024,26 +1175,26 @@ def oracle_samplers(r):
 
     # ---- run_sweep / run_sweep_async / run / run_async per program
     for i, c in enumerate(circuits):
-        sw = _make_sweepable(sweeps[i], syms)
+        sw = SW.build(sweeps[i])
         log.take()
         check_sweep(f"{kind}.run_sweep(program {i})", sampler.run_sweep(c, sw, reps[i]), i, reps[i])
         check_log(f"{kind}.run_sweep(program {i})", [(und, [i], expected_resolvers[i], reps[i])])
         check_sweep(f"{kind}.run_sweep_async(program {i})", duet.run(sampler.run_sweep_async, c, sw, reps[i]), i, reps[i])
         check_log(f"{kind}.run_sweep_async(program {i})", [(und, [i], expected_resolvers[i], reps[i])])
         p0 = expected_resolvers[i][0]
-        for form, arg in (("dict", dict(p0)), ("ParamResolver", cirq.ParamResolver(dict(p0)))) + ((("None", None),) if not syms else ()):
+        for form, arg in (("dict", dict(p0)), ("ParamResolver", cirq.ParamResolver(dict(p0)))) + ((("None", None),) if no_params else ()):
             check_result(f"{kind}.run(program {i}, {form})", sampler.run(c, arg, reps[i]), i, p0, reps[i])
             check_log(f"{kind}.run(program {i}, {form})", [(und, [i], [p0], reps[i])])
         check_result(f"{kind}.run_async(program {i})", duet.run(sampler.run_async, c, cirq.ParamResolver(dict(p0)), reps[i]), i, p0, reps[i])
         check_log(f"{kind}.run_async(program {i})", [(und, [i], [p0], reps[i])])
-        if not syms:
+        if no_params:
             check_result(f"{kind}.run(program {i}) default repetitions", sampler.run(c), i, {}, 1)
             log.take()
 
     # ---- sample
     n_sample = 0
     for i, c in enumerate(circuits):
-        sw = _make_sweepable(sweeps[i], syms)
+        sw = SW.build(sweeps[i])
         if not flat_ok[i]:
             if kind in ("sweep", "sweep_async", "zeros") and reps[i] > 0:
                 try:
@@ -1054,12 +1205,20 @@ def oracle_samplers(r):
                     raise Violation(f"{kind}.sample of a program with a repeated key returned a frame")
             log.take()
             continue
+        keysets = [set(p) for u in units[i] for p in u]
+        if any(ks != keysets[0] for ks in keysets):
+            # documented: "ValueError: If a supplied sweep is invalid" (sweeps of one call must assign the same parameters)
+            _expect_value_error(f"{kind}.sample(program {i}) with sweeps assigning different parameter sets",
+                                lambda: sampler.sample(c, repetitions=reps[i], params=sw))
+            labels["sample_inconsistent_keys"] = True
+            log.take()
+            continue
         log.take()
         df = sampler.sample(c, repetitions=reps[i], params=sw)
         got_log = log.take()
         n_sample += 1
         keys_in_order = [key for key, _, _ in shapes[i]]
-        pcols = sorted(syms)
+        pcols = sorted(keysets[0])
         if sorted(df.columns) != sorted(pcols + keys_in_order) or list(df.columns)[: len(pcols)] != pcols:
             raise Violation(f"{kind}.sample(program {i}): columns {list(df.columns)} != parameters {pcols} then keys {keys_in_order}")
         want_rows = []
@@ -1077,7 +1236,8 @@ def oracle_samplers(r):
         for row_i, (p, digs) in enumerate(want_rows):
             for s in pcols:
                 if df[s].iloc[row_i] != p[s]:
-                    raise Violation(f"{kind}.sample(program {i}) row {row_i}: parameter column {s} = {df[s].iloc[row_i]!r}, run used {p[s]!r}")
+                    raise Violation(f"{kind}.sample(program {i}) row {row_i}: parameter column {s} = {df[s].iloc[row_i]!r}, the run that produced "
+                                    f"the row used {s}={p[s]!r}\n  params={SW.describe(sweeps[i])} assignments={expected_resolvers[i]}")
             for key in keys_in_order:
                 if any(x != 2 for x in radix_of[key]):
                     continue
@@ -1094,8 +1254,8 @@ def oracle_samplers(r):
                                 f"{reps[i]} times in sweep order")
 
     # ---- run_batch / run_batch_async
-    params_list = [_make_sweepable(sw, syms) for sw in sweeps]
-    use_none = bool(r.get("params_none")) and not syms
+    params_list = [SW.build(sw) for sw in sweeps]
+    use_none = bool(r.get("params_none")) and no_params
     exp_res = [[{}] for _ in range(n)] if use_none else expected_resolvers
     reps_arg = reps[0] if r.get("reps_kind") == "int" else list(reps)
     for label, call in (("run_batch", lambda *a: sampler.run_batch(*a)), ("run_batch_async", lambda *a: duet.run(sampler.run_batch_async, *a))):
@@ -1148,6 +1308,11 @@ def oracle_samplers(r):
         "zero_reps": any(x == 0 for x in reps), "multi_instance": any(not f for f in flat_ok),
         "per_program_reps": len(set(reps)) > 1, "multi_resolver": any(len(x) >= 2 for x in expected_resolvers),
         "sampled": n_sample > 0, "symbols": len(syms),
+        "multi_sweep": any(len(u) >= 2 for u in units),
+        "key_order_varies": any(len({tuple(o) for o in _orders(sw)}) >= 2 for sw in sweeps),
+        "order_varies_multi_sweep_2params": any(
+            len(u) >= 2 and len({tuple(o) for o in _orders(sw) if len(o) >= 2}) >= 2 for u, sw in zip(units, sweeps)),
+        "mixed_value_types": any(len({type(v).__name__ for p in ps for v in p.values()}) >= 2 for ps in expected_resolvers),
     })
     return labels
 
@@ -1178,9 +1343,11 @@ def uncovered():
 
 
 SUBCHECKS = [
-    SubCheck("records", _records_case(), oracle_records, quick=6000, thorough=240000, shards_quick=8, shards_thorough=16,
+    SubCheck("records", _records_case(), oracle_records, quick=5200, thorough=240000, shards_quick=8, shards_thorough=16,
              essential={"wide_gt64": 0.1, "qudit": 0.2, "zero_reps": 0.04, "multi_instance": 0.08, "int_overflows_int64": 0.05}),
-    SubCheck("digits", _digits_case(), oracle_digits, quick=6000, thorough=300000, shards_quick=4, shards_thorough=8,
+    SubCheck("long", _long_case(), oracle_long, quick=30, thorough=1500, shards_quick=3, shards_thorough=16,
+             essential={"reps_gt_50000": 0.2, "reps_ge_100000": 0.05}),
+    SubCheck("digits", _digits_case(), oracle_digits, quick=5000, thorough=300000, shards_quick=4, shards_thorough=8,
              essential={"mixed": 0.2, "gt64bits": 0.1}),
     SubCheck("store", _store_case(), oracle_store, quick=1600, thorough=80000, shards_quick=2, shards_thorough=8),
     SubCheck("samplers", _sampler_case(), oracle_samplers, quick=2000, thorough=100000, shards_quick=6, shards_thorough=16,
